@@ -163,3 +163,47 @@ Proof.
   intros Hp Hm Hs. unfold keltner_lower, keltner_middle, keltner_upper. apply keltner_gen; [exact Hm| |apply atr_nonneg; assumption].
   unfold ema, atr. apply seeded_same_def. rewrite true_range_length, map_length. reflexivity.
 Qed.
+
+(* ------------------------------------------------------------------ ATR scales with price (factor >= 0): true range, then the seeded smoother *)
+Definition scale_kc (c : Qc) (k : kc) : kc :=
+  {| k_ts := k_ts k; k_o := c * k_o k; k_c := c * k_c k; k_h := c * k_h k; k_l := c * k_l k; k_v := k_v k |}.
+Lemma max_scale c x y : 0 <= c -> (if qltb (c * x) (c * y) then c * y else c * x) = c * (if qltb x y then y else x).
+Proof.
+  intros Hc. destruct (qltb_spec (c * x) (c * y)) as [A|A], (qltb_spec x y) as [B|B]; try reflexivity.
+  - apply Qcnot_lt_le in B. exfalso. pose proof (Qcmult_le_compat_r _ _ c B Hc) as K. rewrite !(Qcmult_comm _ c) in K. exact (Qcle_not_lt _ _ K A).
+  - apply Qcnot_lt_le in A. pose proof (Qcmult_le_compat_r _ _ c (Qclt_le_weak _ _ B) Hc) as K. rewrite !(Qcmult_comm _ c) in K. apply Qcle_antisym; assumption.
+Qed.
+Lemma qabs_scale c x : 0 <= c -> qabs (c * x) = c * qabs x.
+Proof.
+  intros Hc. unfold qabs. destruct (qltb_spec (c * x) 0) as [A|A], (qltb_spec x 0) as [B|B]; try ring.
+  - apply Qcnot_lt_le in B. exfalso. pose proof (Qcmult_le_compat_r _ _ c B Hc) as K. rewrite !(Qcmult_comm _ c) in K.
+    replace (c * 0) with (0 : Qc) in K by ring. exact (Qcle_not_lt _ _ K A).
+  - apply Qcnot_lt_le in A. pose proof (Qcmult_le_compat_r _ _ c (Qclt_le_weak _ _ B) Hc) as K. rewrite (Qcmult_comm x c) in K.
+    replace (0 * c) with (0 : Qc) in K by ring. assert (E : c * x = 0) by (apply Qcle_antisym; assumption).
+    replace (c * - x) with (- (c * x)) by ring. rewrite E. ring.
+Qed.
+Lemma true_range_homogeneous c ks : 0 <= c -> true_range (map (scale_kc c) ks) = map (Qcmult c) (true_range ks).
+Proof.
+  intros Hc. unfold true_range.
+  apply (mealy_sim _ (scale_kc c) (Qcmult c) (fun s1 s2 => s2 = option_map (Qcmult c) s1)); [|reflexivity].
+  intros [pc|] s2 k ->; cbn [option_map fst snd scale_kc k_h k_l k_c]; (split; [reflexivity|]); [|ring].
+  replace (c * k_h k - c * pc) with (c * (k_h k - pc)) by ring. replace (c * k_l k - c * pc) with (c * (k_l k - pc)) by ring.
+  replace (c * k_h k - c * k_l k) with (c * (k_h k - k_l k)) by ring.
+  rewrite !qabs_scale by exact Hc. rewrite (max_scale c _ _ Hc). apply (max_scale c _ _ Hc).
+Qed.
+Lemma seeded_homogeneous p (step : Qc -> Qc -> Qc) c : (forall a x, step (c * a) (c * x) = c * step a x) ->
+  forall xs, seeded p step (map (Qcmult c) xs) = map (scale_opt c) (seeded p step xs).
+Proof.
+  intros H xs. unfold seeded.
+  apply (mealy_sim _ (Qcmult c) (scale_opt c) (fun s1 s2 => fst s2 = map (Qcmult c) (fst s1) /\ snd s2 = scale_opt c (snd s1))); [|split; reflexivity].
+  intros [b1 [p1|]] [b2 o2] x [Hb Ho]; cbn [fst snd] in *; subst b2 o2; cbn [scale_opt snd fst].
+  - rewrite H. split; [split; reflexivity|reflexivity].
+  - rewrite map_last_app, map_length.
+    destruct (Nat.eqb (length (b1 ++ [x])) p); cbn [fst snd scale_opt]; [|repeat split; reflexivity].
+    assert (M : mean (map (Qcmult c) (b1 ++ [x])) = c * mean (b1 ++ [x])) by (apply mean_scale; destruct b1; discriminate).
+    rewrite M. repeat split; reflexivity.
+Qed.
+Theorem atr_homogeneous c p ks : 0 <= c -> atr p (map (scale_kc c) ks) = map (scale_opt c) (atr p ks).
+Proof.
+  intros Hc. unfold atr. rewrite (true_range_homogeneous c ks Hc). apply seeded_homogeneous. intros a x. unfold Qcdiv. ring.
+Qed.
